@@ -106,7 +106,7 @@ def automan_row(rnd, f, code, sow, har, har_latest, fixed_sow, fixed_har, off1=N
 ORG_FERT = ["RM", "RG", "SM", "HM", "KSL", "BAK", "FM", "XXQ"]
 
 
-def make_case(rnd, idx, force_sw=None, org_p=0.35, skip=False):
+def make_case(rnd, idx, force_sw=None, org_p=0.35, skip=False, lastskip=False):
     f = idx % 4
     sw = (idx // 4) % 16 if idx < 64 else rnd.randrange(16)
     if force_sw is not None:
@@ -177,6 +177,14 @@ def make_case(rnd, idx, force_sw=None, org_p=0.35, skip=False):
                                        "skip": skip_here, "par": dict(automan_row.last)}))
         last_free = latest if autohar else har
         y = har.year
+    if automan and autofert and len(crops) >= 2 and not lastskip:
+        # organic fertiliser "H" on the LAST entry makes the code pass over the reader's trailing pseudo-entry and overwrite the
+        # last crop record (recorded finding): only in dedicated cases
+        o = crops[-1][3].get("org")
+        if o and o[2] == "H":
+            code_ = crops[-1][0]
+            rows[code_] = rows[code_][:156] + "S" + rows[code_][157:]
+            crops[-1][3]["org"] = (o[0], o[1], "S", o[3])
     if crops[0][0] not in rows:
         rows[crops[0][0]], _ = automan_row(rnd, f, crops[0][0], begin, begin, begin, True, True, None, org0)
     else:
@@ -288,6 +296,8 @@ def _run(ctx):
     # crop-skip scenarios (automatic sowing + automatic fertilisation with organic fertiliser "H")
     nskip = 40 if ctx.thorough else 4
     cases += [make_case(rnd, n + i, force_sw=rnd.choice([3, 7, 11, 15]), org_p=1.0, skip=True) for i in range(nskip)]
+    # dedicated case of a recorded finding: organic fertiliser "H" on the last rotation entry with automatic sowing + fertilisation
+    cases += [make_case(rnd, n + nskip, force_sw=3, org_p=1.0, lastskip=True)]
     _cache["run"] = run_cases(ctx, cases, "c16_", extreme=True)
     return _cache["run"]
 
@@ -553,7 +563,32 @@ def oracle(ctx, search):
         sowlog = [(z, p.get("Crop", "").strip()) for (z, k, p) in cs["log"] if k == "sowing"]
         harlog = [(z, p.get("Crop", "").strip()) for (z, k, p) in cs["log"] if k == "harvest"]
         crops = cs["crops"]
-        skipped_run = has_skip(cs)       # crop-skip scenario: outside the property's quantifier (window ended before the previous harvest)
+        # crop-skip scenario: outside the property's quantifier (the next entry's window ended before this harvest) — but only
+        # where the files say so: next window end <= harvest day, automatic sowing on, harvested entry with organic fertiliser "H"
+        # (timing letters are only read with automatic fertilisation on).  Any other skip is a rotation-order violation.
+        skipped_run = False
+        for h in cs["harv"]:
+            if h["adv"] >= 2:
+                k_ = h["akf"]
+                o_ = (crops[k_][3] or {}).get("org") if k_ < len(crops) else None
+                nxt_w2 = daynum(crops[k_ + 1][3]["w2"]) if k_ + 1 < len(crops) and not crops[k_ + 1][3]["fixed_sow"] else None
+                due = bool(automan and autofert and o_ and o_[2] == "H" and nxt_w2 is not None and nxt_w2 <= h["zeit"])
+                if due:
+                    skipped_run = True
+                elif k_ + 1 >= len(crops) and automan and autofert and o_ and o_[2] == "H" and k_ >= 1:
+                    # harvest of the LAST rotation entry: the reader's trailing pseudo-entry has SAAT2 = SAAT[last] + 365 with SAAT[last]
+                    # still 0 under automatic sowing, so the skip block fires and overwrites the record of the crop just harvested
+                    skipped_run = True
+                    fails.append(Fail(key="last-crop-record-lost-at-skip:%s:%s" % (sws, tag),
+                                      what="harvest of the last rotation entry %d (%s, organic fertiliser %s) on %s: crop record %s instead of crop %s / year %d"
+                                      % (k_, crops[k_][0], o_, numday(h["zeit"]), cs["crec"][-1:] and cs["crec"][-1], crops[k_][0], numday(h["zeit"]).year),
+                                      case=tag, switches=sws, crop_records=cs["crec"], automan=list(cs["rows"].values())))
+                else:
+                    fail("rotation-order", "at the harvest of entry %d (%s) on %s the next rotation entry %s was passed over although its sowing window "
+                         "(ends %s) had not ended (organic fertiliser of the harvested entry: %s)"
+                         % (k_, crops[k_][0] if k_ < len(crops) else "?", numday(h["zeit"]), crops[k_ + 1][0] if k_ + 1 < len(crops) else "(none)",
+                            crops[k_ + 1][3]["w2"] if k_ + 1 < len(crops) else None, o_),
+                         crop_records=cs["crec"], log=[(str(numday(z)), k, p) for (z, k, p) in cs["log"] if k in ("sowing", "harvest")])
         if skipped_run:
             crops = crops[:1]
         # rotation order: k-th sowing / harvest / crop record belongs to rotation entry k
@@ -608,8 +643,19 @@ def oracle(ctx, search):
             if not r["fired"]:
                 continue
             checked += 1
-            iw, s1, s2 = go_hex(r["intwick"]), go_hex(r["irrst1"]), go_hex(r["irrst2"])
-            amt, mx = go_hex(r["amount"]), go_hex(r["irrmax"])
+            # stage window and daily maximum of the automan row of the crop actually standing (from the management log)
+            kk = None
+            for k_ in range(1, len(cs["crops"])):
+                sz_ = sowlog[k_ - 1][0] if k_ - 1 < len(sowlog) else None
+                hz_ = harlog[k_ - 1][0] if k_ - 1 < len(harlog) else None
+                if sz_ is not None and sz_ < r["zeit"] and (hz_ is None or r["zeit"] <= hz_):
+                    kk = k_
+            par = cs["crops"][kk][3].get("par") if (kk is not None and not has_skip(cs)) else None
+            iw = go_hex(r["intwick"])
+            s1, s2, mx = (par["irrst1"], par["irrst2"], par["irrmax"]) if par else (go_hex(r["irrst1"]), go_hex(r["irrst2"]), go_hex(r["irrmax"]))
+            amt = go_hex(r["amount"])
+            if kk is None and not has_skip(cs):
+                fail("irrigation-without-crop", "day %s: automatic irrigation although no crop of the rotation is standing (management log)" % numday(r["zeit"]))
             if not (s1 <= iw < s2 + 1) or not (0 < r["saat"] < r["zeit"]):
                 fail("irrigation-outside-stages", "day %s: automatic irrigation at development stage %g, configured stages %g..%g, sown %s"
                      % (numday(r["zeit"]), iw, s1, s2, r["saat"] and numday(r["saat"])))
